@@ -251,8 +251,15 @@ def r05_4(ctx):
               found="; ".join(ast.unparse(c) for c in calls), fi=f)
     t = prog.own_method("SamplingMethod", "transcribe")
     sc = ctx.scope(t)
-    calls = [c for c in walk_no_nested(t.node) if is_call_to(c, "add_objective", "self")]
-    ok = len(calls) == 1 and not sc.enclosing_loops(calls[0]) and [ast.unparse(g[0]).replace(" ", "") for g in sc.guards(calls[0])] == ["phase==1"]
+    # on the phase-1 path exactly one call, outside loops; on every other phase none (whatever way the phases are told apart)
+    from ..ceval import calls_on_path, Unknown
+    ph = t.params[2] if len(t.params) > 2 else "phase"
+    try:
+        per_phase = {v: [(c, lp) for c, lp in calls_on_path(t.node, {ph: v}) if is_call_to(c, "add_objective", "self")] for v in (0, 1, 2, 3)}
+    except Unknown as e:
+        raise AnalysisError("SamplingMethod.transcribe: phases not decidable: %s" % e)
+    calls = [c for c, lp in per_phase[1]]
+    ok = len(per_phase[1]) == 1 and not per_phase[1][0][1] and not per_phase[0] and not per_phase[2] and not per_phase[3]
     ctx.check(ok, "SamplingMethod.transcribe adds the objective exactly once (phase 1)", detail="objective added 0 or several times", expected="self.add_objective(stage, opti) once under phase==1", found=str(len(calls)), fi=t)
     d = prog.own_method("DirectMethod", "transcribe")
     calls = [c for c in walk_no_nested(d.node) if is_call_to(c, "add_objective")]
